@@ -6,12 +6,27 @@
 //! Correspondence ops: thash.seq, thash.fb, thash.fbo, thash.curry, thash.curried, thash.ff
 //! Helper ops (implementation only): thash.ser, thash.modhash
 //! Oracle ops (the property itself, against an independent recursive SHA-256 tree hash):
-//!   thash.oracle, thash.ocurry
+//!   thash.oracle, thash.ocurry, thash.ohelper (every X::curry_tree_hash of chia-puzzle-types)
 use chia_consensus::fast_forward::fast_forward_singleton;
 use chia_protocol::{Bytes32, Coin};
+use chia_bls::SecretKey;
+use chia_puzzle_types::cat::{CatArgs, EverythingWithSignatureTailArgs, GenesisByCoinIdTailArgs};
+use chia_puzzle_types::did::DidArgs;
+use chia_puzzle_types::nft::{
+    NftIntermediateLauncherArgs, NftOwnershipLayerArgs, NftRoyaltyTransferPuzzleArgs, NftStateLayerArgs,
+};
 use chia_puzzle_types::singleton::{SingletonArgs, SingletonSolution, SingletonStruct};
+use chia_puzzle_types::standard::StandardArgs;
 use chia_puzzle_types::{LineageProof, Proof};
-use chia_puzzles::{SINGLETON_TOP_LAYER_V1_1, SINGLETON_TOP_LAYER_V1_1_HASH};
+use chia_puzzles::{
+    CAT_PUZZLE, CAT_PUZZLE_HASH, DID_INNERPUZ, DID_INNERPUZ_HASH, EVERYTHING_WITH_SIGNATURE,
+    EVERYTHING_WITH_SIGNATURE_HASH, GENESIS_BY_COIN_ID, GENESIS_BY_COIN_ID_HASH, NFT_INTERMEDIATE_LAUNCHER,
+    NFT_INTERMEDIATE_LAUNCHER_HASH, NFT_OWNERSHIP_LAYER, NFT_OWNERSHIP_LAYER_HASH,
+    NFT_OWNERSHIP_TRANSFER_PROGRAM_ONE_WAY_CLAIM_WITH_ROYALTIES,
+    NFT_OWNERSHIP_TRANSFER_PROGRAM_ONE_WAY_CLAIM_WITH_ROYALTIES_HASH, NFT_STATE_LAYER, NFT_STATE_LAYER_HASH,
+    P2_DELEGATED_PUZZLE_OR_HIDDEN_PUZZLE, P2_DELEGATED_PUZZLE_OR_HIDDEN_PUZZLE_HASH, SINGLETON_TOP_LAYER_V1_1,
+    SINGLETON_TOP_LAYER_V1_1_HASH,
+};
 use chia_sha2::Sha256;
 use clvm_traits::{clvm_curried_args, ClvmEncoder, ToClvm, ToClvmError};
 use clvm_utils::{
@@ -204,6 +219,183 @@ fn ref_curried(p: &[u8; 32], args: &[[u8; 32]]) -> [u8; 32] {
     h_pair(&h_atom(&[2]), &h_pair(&quoted_p, &h_pair(&acc, &nil)))
 }
 
+// ---------------------------------------------------------------- hash-only currying helpers
+/// `helper` is what X::curry_tree_hash returned; build the ACTUAL curried program (real module bytes,
+/// args = X::new(..) encoded into the allocator) and compare with every routine and the reference hash
+fn check_helper<A: ToClvm<Allocator>>(
+    name: &str,
+    a: &mut Allocator,
+    mod_bytes: &[u8],
+    mod_hash: [u8; 32],
+    args: A,
+    helper: TreeHash,
+) -> String {
+    let modp = node_from_bytes(a, mod_bytes).unwrap();
+    if ref_hash(a, modp) != mod_hash {
+        return format!("FAIL {name} module-hash-constant");
+    }
+    let curried = CurriedProgram { program: modp, args }.to_clvm(a).unwrap();
+    let want = ref_hash(a, curried);
+    let th = tree_hash(a, curried).to_bytes();
+    let mut cache = TreeCache::default();
+    let thc = tree_hash_cached(a, curried, &mut cache).to_bytes();
+    let ser = node_to_bytes(a, curried).unwrap();
+    let fb = tree_hash_from_bytes(&ser).map(|h| h.to_bytes()).unwrap_or([0; 32]);
+    if th != want || thc != want || fb != want {
+        return format!("FAIL {name} tree-hash-routines-disagree-on-the-curried-program");
+    }
+    if helper.to_bytes() != want {
+        return format!(
+            "FAIL {name}::curry_tree_hash={} tree_hash(actual-curried-program)={}",
+            hexo(&helper.to_bytes()),
+            hexo(&want)
+        );
+    }
+    "OK".into()
+}
+
+fn opt32(s: &str) -> Option<Bytes32> {
+    if s == "none" {
+        None
+    } else {
+        Some(Bytes32::new(b32(s)))
+    }
+}
+
+/// a tree given in plain serialization: its node and its (reference) hash
+fn tree_arg(a: &mut Allocator, s: &str) -> (NodePtr, TreeHash) {
+    let n = node_from_bytes(a, &hx(s)).unwrap();
+    let h = TreeHash::new(ref_hash(a, n));
+    (n, h)
+}
+
+fn run_helper(args: &[String]) -> Option<String> {
+    let a = &mut Allocator::new();
+    let name = args[0].as_str();
+    let p = &args[1..];
+    Some(match name {
+        "StandardArgs" => {
+            let pk = SecretKey::from_seed(&hx(&p[0])).public_key();
+            check_helper(
+                name,
+                a,
+                &P2_DELEGATED_PUZZLE_OR_HIDDEN_PUZZLE,
+                P2_DELEGATED_PUZZLE_OR_HIDDEN_PUZZLE_HASH,
+                StandardArgs::new(pk),
+                StandardArgs::curry_tree_hash(pk),
+            )
+        }
+        "EverythingWithSignatureTailArgs" => {
+            let pk = SecretKey::from_seed(&hx(&p[0])).public_key();
+            check_helper(
+                name,
+                a,
+                &EVERYTHING_WITH_SIGNATURE,
+                EVERYTHING_WITH_SIGNATURE_HASH,
+                EverythingWithSignatureTailArgs::new(pk),
+                EverythingWithSignatureTailArgs::curry_tree_hash(pk),
+            )
+        }
+        "GenesisByCoinIdTailArgs" => {
+            let id = Bytes32::new(b32(&p[0]));
+            check_helper(
+                name,
+                a,
+                &GENESIS_BY_COIN_ID,
+                GENESIS_BY_COIN_ID_HASH,
+                GenesisByCoinIdTailArgs::new(id),
+                GenesisByCoinIdTailArgs::curry_tree_hash(id),
+            )
+        }
+        "CatArgs" => {
+            let asset = Bytes32::new(b32(&p[0]));
+            let (inner, ih) = tree_arg(a, &p[1]);
+            check_helper(name, a, &CAT_PUZZLE, CAT_PUZZLE_HASH, CatArgs::new(asset, inner), CatArgs::curry_tree_hash(asset, ih))
+        }
+        "SingletonArgs" => {
+            let launcher = Bytes32::new(b32(&p[0]));
+            let (inner, ih) = tree_arg(a, &p[1]);
+            check_helper(
+                name,
+                a,
+                &SINGLETON_TOP_LAYER_V1_1,
+                SINGLETON_TOP_LAYER_V1_1_HASH,
+                SingletonArgs::new(launcher, inner),
+                SingletonArgs::curry_tree_hash(launcher, ih),
+            )
+        }
+        "DidArgs" => {
+            let (inner, ih) = tree_arg(a, &p[0]);
+            let recovery = opt32(&p[1]);
+            let num = dec(&p[2]);
+            let st = SingletonStruct {
+                mod_hash: Bytes32::new(b32(&p[3])),
+                launcher_id: Bytes32::new(b32(&p[4])),
+                launcher_puzzle_hash: Bytes32::new(b32(&p[5])),
+            };
+            let (meta, mh) = tree_arg(a, &p[6]);
+            check_helper(
+                name,
+                a,
+                &DID_INNERPUZ,
+                DID_INNERPUZ_HASH,
+                DidArgs::new(inner, recovery, num, st, meta),
+                DidArgs::curry_tree_hash(ih, recovery, num, st, mh),
+            )
+        }
+        "NftIntermediateLauncherArgs" => {
+            let (n, t) = (dec(&p[0]) as usize, dec(&p[1]) as usize);
+            check_helper(
+                name,
+                a,
+                &NFT_INTERMEDIATE_LAUNCHER,
+                NFT_INTERMEDIATE_LAUNCHER_HASH,
+                NftIntermediateLauncherArgs::new(n, t),
+                NftIntermediateLauncherArgs::curry_tree_hash(n, t),
+            )
+        }
+        "NftStateLayerArgs" => {
+            let (meta, mh) = tree_arg(a, &p[0]);
+            let (inner, ih) = tree_arg(a, &p[1]);
+            check_helper(
+                name,
+                a,
+                &NFT_STATE_LAYER,
+                NFT_STATE_LAYER_HASH,
+                NftStateLayerArgs::new(meta, inner),
+                NftStateLayerArgs::curry_tree_hash(mh, ih),
+            )
+        }
+        "NftOwnershipLayerArgs" => {
+            let owner = opt32(&p[0]);
+            let (tp, tph) = tree_arg(a, &p[1]);
+            let (inner, ih) = tree_arg(a, &p[2]);
+            check_helper(
+                name,
+                a,
+                &NFT_OWNERSHIP_LAYER,
+                NFT_OWNERSHIP_LAYER_HASH,
+                NftOwnershipLayerArgs::new(owner, tp, inner),
+                NftOwnershipLayerArgs::curry_tree_hash(owner, tph, ih),
+            )
+        }
+        "NftRoyaltyTransferPuzzleArgs" => {
+            let launcher = Bytes32::new(b32(&p[0]));
+            let rph = Bytes32::new(b32(&p[1]));
+            let r = dec(&p[2]) as u16;
+            check_helper(
+                name,
+                a,
+                &NFT_OWNERSHIP_TRANSFER_PROGRAM_ONE_WAY_CLAIM_WITH_ROYALTIES,
+                NFT_OWNERSHIP_TRANSFER_PROGRAM_ONE_WAY_CLAIM_WITH_ROYALTIES_HASH,
+                NftRoyaltyTransferPuzzleArgs::new(launcher, rph, r),
+                NftRoyaltyTransferPuzzleArgs::curry_tree_hash(launcher, rph, r),
+            )
+        }
+        _ => format!("FAIL unknown-helper {name}"),
+    })
+}
+
 const PLAIN_LIMIT: u64 = 300_000; // expanded-tree size up to which the non-memoizing routines are run
 
 fn run(name: &str, args: &[String]) -> Option<String> {
@@ -377,6 +569,7 @@ fn run(name: &str, args: &[String]) -> Option<String> {
             }
             Some(format!("OK {checks}"))
         }
+        "thash.ohelper" => run_helper(args),
         "thash.ocurry" => {
             // thash.ocurry <script tokens> | P A1 A2 ...   (node numbers after the "|" token)
             let bar = args.iter().position(|s| s == "|").expect("separator");
